@@ -80,6 +80,7 @@ func allPropsUnsorted() []*propInfo {
 				"C06.5 (shared) a nack selects only outstanding rows, so a late nack of an acked id neither forwards it to the dead-letter topic nor rewrites it. Deliberately not demanded: the completed_at IS NULL guard in modify-deadline (dropping it does not resurrect an acked message: the pull excludes completed rows). C01.2 (shared) ack statements are keyed by exactly the request's ids; C03.5 ack ids are converted completely and in place or the request fails; C04.9 (shared) no aliased predicate appends; C09.2 / C09.3 (shared) commit errors are reported. C03.6 every StreamingPull frame, the opening one included, reaches the streamer through adaptIn. C06.1 (shared) only pull, nack and the sweep dead-letter. C02.2 (shared) every delivery mutation is scoped to the resolved subscription. NOT decided: the history-level claim.",
 			Assumptions: []string{k1Assumption},
 			Rules: []ruleFn{
+				{ID: "C17.6", Doc: "(shared, stream adapter instances: an ack list of any length ≥ 1 on a StreamingPull frame reaches the ack action) [dom] presence guards", Run: ruleC17_6, Only: `adaptIn`},
 				{ID: "C06.2", Doc: "(shared, sweep selection: the dead-letter sweep never takes an acknowledged delivery and forwards it) [atoms] sweep selection", Run: ruleC06_2, Only: `sweep-select`},
 				{ID: "C09.8", Doc: "(shared: an Acknowledge whose transaction failed is not reported as OK) [tab] no error is converted to a gRPC status with code OK", Run: ruleC09_8},
 				{ID: "C02.2", Doc: "(shared: a mutation that is not scoped to the resolved subscription un-acks or acks other subscriptions' deliveries) [atoms] (shared) no delivery mutation reaches another subscription's rows: other subscriptions' acks/seeks cannot make a message disappear", Run: ruleC02_2},
@@ -155,6 +156,7 @@ func allPropsUnsorted() []*propInfo {
 				"C17.4 (shared) a dead-letter topic is attached only as the entity a lookup returned for this request. C06.4 also: the retiring update is addressed by the delivery id and nothing else. C06.7 the attempt limit an update stores is the request's value if non-zero, else the default. NOT decided: 'exactly once' under concurrent PostgreSQL transactions, counting N over histories, topology effects.",
 			Assumptions: []string{k1Assumption},
 			Rules: []ruleFn{
+				{ID: "C17.6", Doc: "(shared, dead-letter instances: a policy of one attempt is stored as a policy) [dom] presence guards", Run: ruleC17_6, Only: `MaxDeliveryAttempts|DeadLetter`},
 				{ID: "C06.7", Doc: "[dom] the attempt limit stored by an update is the request's value if non-zero, else the default", Run: ruleC06_7},
 				{ID: "C17.4", Doc: "[dep] (shared) a dead-letter topic is attached only from a lookup made for the request (live row), never from a cached edge", Run: ruleC17_4},
 				{ID: "C06.1", Doc: "[who] callers of deadLetterDelivery", Run: ruleC06_1, Ctrl: true},
@@ -332,6 +334,7 @@ func allPropsUnsorted() []*propInfo {
 				"NOT decided: the numeric invariant over interleavings, promptness.",
 			Assumptions: []string{k1Assumption, "sync.Mutex semantics; channel send on a buffered channel never blocks the waker"},
 			Rules: []ruleFn{
+				{ID: "C10.3", Doc: "(shared, ack instances: an ack spanning several subscriptions wakes the blocked stream of each, so each rebuilds its pending set) [K2] broadcasts reach every target", Run: ruleC10_3, Only: `AckDeliveries`},
 				{ID: "C10.1", Doc: "[dom] (shared) the stream's refresher and sender re-arm their notifier before they query: an external ack landing during a refresh is not missed (the stream does not stall with capacity free)", Run: ruleC10_1_2},
 				{ID: "C11.1", Doc: "[lock] pending/fc under mu", Run: ruleC11_1},
 				{ID: "C11.2", Doc: "[dom] pending before send; fetch limits minus pending (C11.3)", Run: ruleC11_2_3},
@@ -352,6 +355,7 @@ func allPropsUnsorted() []*propInfo {
 				"C18.4 also: match says no only under an exhausted count, another operation, or a missing / different injected parameter (judged per path). C18.8 the request-to-parameter extraction reads no package-level state besides the pool. NOT decided: the exact count min(N, matches) over schedules (C18.1/2 are its memory-ordering and re-check conditions), request-to-parameter extraction for all messages.",
 			Assumptions: []string{"sync/atomic and sync.RWMutex semantics"},
 			Rules: []ruleFn{
+				{ID: "C18.9", Doc: "[dom] the lookup considers every description of the operation: it leaves early only by returning the one that matched", Run: ruleC18_9},
 				{ID: "C18.8", Doc: "[who] the request-to-parameter extraction reads no package-level state besides the pool", Run: ruleC18_8},
 				{ID: "C18.1", Doc: "atomic discipline on Description.Count", Run: ruleC18_1, Ctrl: true},
 				{ID: "C18.2", Doc: "[K6 sign] fire exactly for a non-negative remainder; re-match on a lost race", Run: ruleC18_2},
@@ -437,6 +441,7 @@ func allPropsUnsorted() []*propInfo {
 				"C17.3 in the stored-duration codec no floating-point value computed from the parsed digits is truncated to an integer (a length-derived power of ten is exact and allowed; math.Round first is allowed) and a duration is never represented as a float (no Seconds/Minutes/Hours, FormatFloat/ParseFloat, or 64-bit-count-to-float conversion). C17.1 independence: the response field fed by column X sits under a test of X only, never of a sibling column (except attempts under the dead-letter topic). C17.2 also: the handlers switch on the mask's own path strings (a pass-through helper may fetch them, not compute new ones); C17.4 a dead-letter topic is attached only as the entity a lookup returned for this request, never a cached edge. C17.5 zero durations select the documented defaults (a comparison with 0, also in a shared helper); C17.3 also: Interval.Value writes the exact duration. C17.3 also: the interval pattern constant accepts PostgreSQL's renderings (table check on the constant); C06.7 (shared). NOT decided: the rest of the interval codec (all durations / all PostgreSQL interval strings — numeric), defaults' values, sequences of updates.",
 			Assumptions: []string{k1Assumption, "protobuf/ent field names correspond one-to-one as in the generated code"},
 			Rules: []ruleFn{
+				{ID: "C17.6", Doc: "[dom] an optional value is acted on whenever it is present: the guard of the call consuming it is the presence test itself", Run: ruleC17_6},
 				{ID: "C06.7", Doc: "[dom] the attempt limit stored by an update is the request's value if non-zero, else the default", Run: ruleC06_7},
 				{ID: "C17.3", Doc: "[tab] the interval pattern constant accepts PostgreSQL's renderings (singular and plural units)", Run: ruleC17_3pattern},
 				{ID: "C17.5", Doc: "[dom] zero durations select the documented defaults (a comparison with 0, not only a nil test)", Run: ruleC17_5},
